@@ -1,7 +1,7 @@
 // C14 -- run-time configuration is equivalent to compile-time configuration (DESIGN.md 5/C14).
 // main(): dispatch of the sub-checks implemented in the other C14 translation units, and the
 // documentation pass.
-//   equiv_amg / equiv_solver / equiv_precond / equiv_make_solver   (c14_eq_*.cpp)   D: bitwise differential
+//   equiv_amg / equiv_solver / equiv_precond / equiv_make_solver / equiv_block   (c14_eq_*.cpp)   D: bitwise differential
 //   param_table                                                    (c14_tables.cpp) R: member table
 //   enum_strings / unknown_runtime                                 (c14_rt_misc.cpp)
 //   docs_coverage                                                  (here)           coverage observation only
@@ -22,6 +22,7 @@ void run_pair_ruge_stuben(int ri, long idx);
 void run_solver_case(int si, long idx);
 void run_precond_class_case(int k, long idx);
 void run_make_solver_case(int k, long idx);
+void run_block_case(int k, long idx);
 void run_param_tables();
 void run_enum_cases();
 void run_unknown_runtime_cases();
@@ -84,12 +85,13 @@ static void run_docs_coverage() {
 int main(int argc, char **argv) {
     vf::init(argc, argv);
     using namespace c14;
-    { long N = 36 * vf::tier(4, 30);
+    { long N = 36 * vf::tier(4, 60);
       for (long idx = 0; idx < N; ++idx) { if (!vf::selected("equiv_amg", idx)) continue; int p = (int)(idx % 36), ci = p / 9, ri = p % 9;
         switch (ci) { case 0: run_pair_aggregation(ri, idx); break; case 1: run_pair_smoothed_aggregation(ri, idx); break; case 2: run_pair_smoothed_aggr_emin(ri, idx); break; default: run_pair_ruge_stuben(ri, idx); } } }
-    { long N = 9 * vf::tier(6, 60);  for (long idx = 0; idx < N; ++idx) if (vf::selected("equiv_solver", idx)) run_solver_case((int)(idx % 9), idx); }
+    { long N = 9 * vf::tier(6, 120);  for (long idx = 0; idx < N; ++idx) if (vf::selected("equiv_solver", idx)) run_solver_case((int)(idx % 9), idx); }
     { long N = 8 * vf::tier(4, 30);  for (long idx = 0; idx < N; ++idx) if (vf::selected("equiv_precond", idx)) run_precond_class_case((int)(idx % 8), idx); }
     { long N = 3 * vf::tier(5, 40);  for (long idx = 0; idx < N; ++idx) if (vf::selected("equiv_make_solver", idx)) run_make_solver_case((int)(idx % 3), idx); }
+    { long N = 6 * vf::tier(4, 40);  for (long idx = 0; idx < N; ++idx) if (vf::selected("equiv_block", idx)) run_block_case((int)(idx % 6), idx); }
     if (vf::sub_enabled("param_table") || vf::sub_enabled("docs_coverage")) run_param_tables();
     if (vf::sub_enabled("enum_strings")) run_enum_cases();
     if (vf::sub_enabled("unknown_runtime")) run_unknown_runtime_cases();
